@@ -458,6 +458,26 @@ def h_nonmultiplicative_arrays(eng):
             P(list(A.magnitude) == list(v3) and list(B.magnitude) == list(w3), f"autoconvert:{fname}:{ua},{ub}:operands-untouched")
 
 
+def h_inplace_other_operand(eng):
+    """explicitly in-place operators modify their target -- never the other operand, also when
+    that operand is an offset quantity that autoconvert mode takes at its base-unit value"""
+    auto = regs.float_default(autoconvert_offset_to_baseunit=True)
+    Qa = auto.Quantity
+    for ub, bval in (("degC", 10.0), ("degF", 50.0), ("kelvin", 3.0), ("inch", 2.0)):
+        for oname, iop in (("imul", operator.imul), ("itruediv", operator.itruediv)):
+            for bkind in ("scalar", "array"):
+                x = Qa(np.array([1.0, 2.0]), "meter")
+                y = Qa(bval if bkind == "scalar" else np.array([bval, bval]), ub)
+                want = (operator.mul if oname == "imul" else operator.truediv)(Qa(np.array([1.0, 2.0]), "meter"), Qa(bval if bkind == "scalar" else np.array([bval, bval]), ub))
+                try:
+                    x = iop(x, y)
+                except (OffsetUnitCalculusError, DimensionalityError):
+                    continue
+                same_other = str(y.units) == str(auto.Unit(ub)) and np.all(np.asarray(y.magnitude) == bval)
+                eng.prove(bool(same_other), f"inplace-{oname}:{ub}:{bkind}:other-operand-untouched")
+                eng.prove(bool(np.allclose(x.to_base_units().magnitude, want.to_base_units().magnitude, rtol=1e-12, atol=0)) and x.to_base_units().units == want.to_base_units().units, f"inplace-{oname}:{ub}:{bkind}:same-as-binary-form")
+
+
 def h_setitem_float(eng):
     """item assignment on float arrays: the assigned value is converted into the array's units;
     bare numbers are accepted by dimensionless arrays only (read as plain numbers) -- whatever
@@ -598,6 +618,8 @@ def cases(tier, seed):
     out.append(Case("H16.f", "float-routing", M, "h_float_routing", {}, kind="conc"))
     out.append(Case("H16.f", "nonmultiplicative-arrays", M, "h_nonmultiplicative_arrays", {}, kind="conc"))
     out.append(Case("H16.f", "setitem-float", M, "h_setitem_float", {}, kind="conc"))
+    out.append(Case("H16.d", "inplace-other-operand", M, "h_inplace_other_operand", {}, kind="conc"))
     out.append(Case("H16.d", "inplace:meter,inch", M, "h_inplace", {"ua": "meter", "ub": "inch"}, opts=opts, validate=1))
     out.append(Case("H16.d", "inplace:hour,second", M, "h_inplace", {"ua": "hour", "ub": "second"}, opts=opts, validate=1))
+    out.append(Case("H16.obs", "observed", "pvlib.harness.observed", "h_c16", {}, kind="conc"))
     return out
